@@ -2,6 +2,7 @@ import ApolloModel.Model.Proto
 import ApolloModel.Model.Lexer
 import ApolloModel.Model.AstParse
 import ApolloModel.Model.AstDump
+import ApolloModel.Proofs.AstDocument3
 open Apollo Apollo.Proto Apollo.Ast
 namespace Driver
 
@@ -57,7 +58,8 @@ def c08 (stream : String) (fs : List String) : String :=
     | some l, some d =>
       let st := serializeDocument pre l d
       match sigToks (Lex.lex none st.out) with
-      | some ts => boolStr (ts == toksOf (cDocument (outputEmptyAtStart pre l) d))
+      | some ts => boolStr (ts == toksOf (cDocument (outputEmptyAtStart pre l) d) && wfDefinitions d
+          && (pDocument (szDefinitions d) ts).map dDocument == some (dDocument d))
       | none => "lex-error"
     | _, _ => "REJECT"
   | _, _ => "bad-case"
